@@ -37,8 +37,15 @@ enum Role {
     FlooderClose,
     /// connects at a chosen moment and submits one call right away
     LateJoiner,
+    /// one single call of about 350 bytes (more than the initial receive buffer) at a chosen moment
+    SingleBig,
+    /// one single call of about 5 KB at a chosen moment
+    SingleHuge,
+    /// flooder whose calls are alternately small and of about 350 bytes
+    FlooderBig,
 }
 const ROLES: [Role; 7] = [Role::Flooder, Role::Single1, Role::Single2, Role::SingleSplit, Role::FlooderWatch, Role::FlooderClose, Role::LateJoiner];
+const SIZE_ROLES: [Role; 5] = [Role::Flooder, Role::FlooderBig, Role::Single1, Role::SingleBig, Role::SingleHuge];
 
 #[derive(Clone, Debug)]
 enum Act {
@@ -165,7 +172,7 @@ impl Fairness {
             max_conns: v["max_conns"].as_u64()? as usize,
             flood: v["flood"].as_u64()? as usize,
             moments: v["moments"].as_u64()? as usize,
-            roles: v["roles"].as_array()?.iter().map(|r| *ROLES.iter().find(|x| format!("{x:?}") == r.as_str().unwrap()).unwrap()).collect(),
+            roles: v["roles"].as_array()?.iter().map(|r| *ROLES.iter().chain(SIZE_ROLES.iter()).find(|x| format!("{x:?}") == r.as_str().unwrap()).unwrap()).collect(),
         })
     }
     /// Pick a moment strictly later than `after`.  Moments are PRE (before the server first runs)
@@ -192,7 +199,7 @@ impl Harness for Fairness {
         // 1. configuration
         let n = 2 + cx.choose(self.max_conns - 1, "connections-2");
         let roles: Vec<Role> = (0..n).map(|_| self.roles[cx.choose(self.roles.len(), "role")]).collect();
-        let is_flooder = |r: &Role| matches!(r, Role::Flooder | Role::FlooderWatch | Role::FlooderClose);
+        let is_flooder = |r: &Role| matches!(r, Role::Flooder | Role::FlooderWatch | Role::FlooderClose | Role::FlooderBig);
         if !roles.iter().any(is_flooder) || roles.iter().all(is_flooder) {
             // the statement is about a mix of flooders and single-call clients
             return Verdict::Pass(0);
@@ -243,8 +250,22 @@ impl Harness for Fairness {
                         cx.goal("streaming-transition");
                         cx.goal("flooder");
                     }
-                    Role::Single1 => {
-                        let (bytes, ids) = burst(&[CK::P]);
+                    Role::FlooderBig => {
+                        let kinds: Vec<CK> = (0..self.flood).map(|j| if j % 2 == 0 { CK::P } else { CK::B }).collect();
+                        let (bytes, ids) = burst(&kinds);
+                        total_calls += ids.len();
+                        w.sched.push((PRE, Act::Arrive { conn: i, bytes, completes: ids }, false));
+                        cx.goal("flooder");
+                    }
+                    Role::Single1 | Role::SingleBig | Role::SingleHuge => {
+                        let (bytes, ids) = burst(&[match r {
+                            Role::SingleBig => CK::B,
+                            Role::SingleHuge => CK::H,
+                            _ => CK::P,
+                        }]);
+                        if *r != Role::Single1 {
+                            cx.goal("single-call-larger-than-the-receive-buffer");
+                        }
                         total_calls += 1;
                         let m = self.moment(cx, None);
                         if m != PRE {
@@ -425,13 +446,13 @@ impl Harness for Fairness {
 
 pub fn run(tier: Tier) -> i32 {
     let mut rep = Report::new("C18", tier.name());
-    rep.rule = "DFS by re-execution over: number of connections x role of each connection (flooder with all calls buffered from the start; one single call; two single calls; one single call arriving in two chunks; flooder whose burst parks it in a stream that ends later; flooder that closes; late joiner) x the moment of every scheduled event, where a moment is `before the server first runs` or `at the hand-over of the m-th call to the service` for every m. Only mixes with at least one flooder and one non-flooder count. Outcomes are distinct global service orders".into();
+    rep.rule = "DFS by re-execution over: number of connections x role of each connection (flooder with all calls buffered from the start; one single call; two single calls; one single call arriving in two chunks; flooder whose burst parks it in a stream that ends later; flooder that closes; late joiner; in the sizes phase single calls of 350 bytes and 5 KB and flooders with calls of mixed sizes) x the moment of every scheduled event, where a moment is `before the server first runs` or `at the hand-over of the m-th call to the service` for every m. Only mixes with at least one flooder and one non-flooder count. Outcomes are distinct global service orders".into();
     rep.assumptions = vec![
         "a call is `waiting` from the hand-over at which its last byte was delivered; the connection set changes when the server accepts, drops, parks (streaming call handled) or un-parks (stream dropped) a connection, observed at every hand-over".into(),
         "clause 2 is checked as: while a connection's head-of-line call waits and the connection is in the served set, at most N*(T+1) other calls are served, N = connections, T = set changes during the wait".into(),
         "non-flooders submit single complete calls (the statement's quantifier); a complete call followed by a partial one is outside it".into(),
     ];
-    for g in ["flooder", "single-call-arrives-mid-flood", "single-call-in-two-chunks", "streaming-transition", "connection-closes-while-others-wait", "connection-joins-while-others-wait", "a-call-waited-behind-others"] {
+    for g in ["flooder", "single-call-arrives-mid-flood", "single-call-in-two-chunks", "streaming-transition", "connection-closes-while-others-wait", "connection-joins-while-others-wait", "a-call-waited-behind-others", "single-call-larger-than-the-receive-buffer"] {
         rep.require_goal(g);
     }
     let wall = std::time::Duration::from_secs(tier.pick(50, 1500));
@@ -446,6 +467,10 @@ pub fn run(tier: Tier) -> i32 {
             ("<=5conns/flood4/5moments/core-roles", Fairness { max_conns: 5, flood: 4, moments: 5, roles: vec![Role::Flooder, Role::Single1, Role::FlooderClose, Role::FlooderWatch] }),
         ],
     };
+    let mut plan = plan;
+    // calls that do not fit the receive buffer as it is (it has to grow, once or many times, while
+    // the flood goes on)
+    plan.push(("sizes/<=3conns/flood5/8moments", Fairness { max_conns: 3, flood: 5, moments: tier.pick(8, 10), roles: SIZE_ROLES.to_vec() }));
     for (name, h) in plan {
         let cfg = Config { max_wall: wall, ..Default::default() };
         rep.add(explore(name, h.config(), &h, &cfg));
